@@ -57,7 +57,9 @@ fn median_c(fam: &str, o: &Arc<dyn CObj>) -> Option<Fail> {
     }
     if approx_median(fam) {
         if at < 0.4 || below > 0.6 {
-            return Some(("median outside the 40%-60% quantile band".into(), format!("median={} cdf(median)={:e}", fmt(m), at), REQ_BAND));
+            // sub-class by how far off the approximation is, so that a recorded finding in one class does not hide another
+            let how = if at == 0.0 { "cdf(median)=0" } else if at < 0.2 { "cdf(median)<0.2" } else if at < 0.4 { "cdf(median) in [0.2,0.4)" } else if below >= 1.0 { "cdf(median-)=1" } else { "cdf(median-)>0.6" };
+            return Some((format!("median outside the 40%-60% quantile band [{}]", how), format!("median={} cdf(median)={:e}", fmt(m), at), REQ_BAND));
         }
         return None;
     }
@@ -385,7 +387,15 @@ pub fn run(cx: &mut Ctx) {
         match &t.obj {
             Obj::C(o) => {
                 cx.evals += 1;
-                if let Some(f) = median_c(&t.fam, o) {
+                if let Some(mut f) = median_c(&t.fam, o) {
+                    // the band failures of a documented approximation depend on where the parameter lies relative to
+                    // the formula's own cut-over: class them by the first parameter as well
+                    if f.0.contains("quantile band") {
+                        if let Some(crate::proto::Arg::F(k)) = t.ctor.first() {
+                            let b = if *k <= 0.3 { "<=0.3" } else if *k <= 0.5 { "(0.3,0.5]" } else if *k <= 1.0 { "(0.5,1]" } else if *k <= 2.0 { "(1,2]" } else { ">2" };
+                            f.0 = format!("{} {{{}{}}}", f.0, t.names.first().map(|s| s.as_str()).unwrap_or("p0"), b);
+                        }
+                    }
                     add(&mut fs, &t, "cmedian", "median()", f, None);
                 }
                 let grid = quantile_grid(&t, o);
